@@ -620,6 +620,20 @@ same_values(const Vol& a, const Vol& b, double tol, const std::string& what, con
   return Result::pass();
 }
 
+//! by how many (output) voxels two samplings of the same index range differ at most, summed over the axes in the mask:
+//! |difference of origins| / voxel + (number of voxels) x |relative difference of voxel sizes|.
+//! Resampling a step function on a grid shifted by d voxels changes every value by at most 2 d max|image|.
+double
+grid_shift(const Grid& a, const Grid& b, bool use_z = true, bool use_y = true, bool use_x = true)
+{
+  const bool use[3] = { use_z, use_y, use_x };
+  double d = 0;
+  for (int k = 0; k < 3; ++k)
+    if (use[k])
+      d += std::fabs(a.o[k] - b.o[k]) / b.v[k] + (std::max(std::abs(b.mn[k]), std::abs(b.mx[k])) + 1) * std::fabs(a.v[k] - b.v[k]) / b.v[k];
+  return d;
+}
+
 #define VF_TRY(expr)                                                                                                             \
   do                                                                                                                             \
     {                                                                                                                            \
@@ -855,7 +869,7 @@ check_zoom(const json& c)
         zoom_image_in_place(b, zooms, offs, sizes, opt);
         VF_TRY(same_grid(grid_of(b), gout, cat("zoom_image_in_place (", option_names[o], ") grid")));
         VF_TRY(same_values(vol_of(b), vA[o], TOL_OVERLOAD, cat("zoom_image_in_place (", option_names[o], ") vs zoom_image returning a new image"),
-                           "zoom: max rel diff between overloads", S[o]));
+                           "zoom: max rel diff in-place/output-image overloads vs returning overload", S[o]));
       }
       // C: output image given (same sampling as A), filled with stale values that must be replaced
       {
@@ -863,7 +877,7 @@ check_zoom(const json& c)
         out.fill(float(123. * c["amp"].get<double>()));
         zoom_image(out, in, opt);
         VF_TRY(same_values(vol_of(out), vA[o], TOL_OVERLOAD, cat("zoom_image(out,in) (", option_names[o], ") vs zoom_image returning a new image"),
-                           "zoom: max rel diff between overloads", S[o]));
+                           "zoom: max rel diff in-place/output-image overloads vs returning overload", S[o]));
       }
       // E2: two steps through the output-image overload: x,y first (input planes kept), then z
       {
@@ -929,21 +943,45 @@ check_zoom(const json& c)
             const double SD = vin.maxabs() / (zf[1] * zf[2]) * (o == 0 ? 1. : (o == 1 ? zf[1] * zf[2] : zf[1]));
             const Img d = zoom_image(in, zxy, offs.x(), offs.y(), nxy, opt);
             VF_TRY(same_grid(grid_of(d), vwant.g, cat("zoom_image(image,zoom,x_off,y_off,size) (", option_names[o], ") grid vs 3D overload with zoom_z=1")));
-            VF_TRY(same_values(vol_of(d), vwant, TOL_OVERLOAD, cat("zoom_image(image,zoom,x_off,y_off,size) (", option_names[o], ") vs 3D overload with zoom_z=1"),
-                               "zoom: max rel diff between overloads", SD));
+            // The 3D overload resamples z as well, with zoom_z = v_in/(v_in/1) and an offset from the recomputed origin, which
+            // are 1 and 0 only up to float rounding (STIR is compiled with -ffast-math): the two routes sample grids that
+            // differ by `shift` voxels, so they may differ by 2*shift*max; allowed: TOL_OVERLOAD + 4*shift.
+            const double shift_d = grid_shift(grid_of(d), vwant.g) + grid_shift(vwant.g, vin.g, true, false, false);
+            const double tol_d = TOL_OVERLOAD + 4 * shift_d;
+            stats().maxi("zoom: max allowed rel diff transaxial overloads vs 3D overload", tol_d);
+            if (same_index_range(grid_of(d), vwant.g))
+              {
+                const Vol vd = vol_of(d);
+                double worst = 0;
+                for (std::size_t i = 0; i < vd.d.size(); ++i)
+                  worst = std::max(worst, std::fabs(vd.d[i] - vwant.d[i]));
+                stats().maxi("zoom: max (observed / allowed) transaxial overloads vs 3D overload", worst / std::max(vwant.maxabs(), SD) / tol_d);
+              }
+            VF_TRY(same_values(vol_of(d), vwant, tol_d, cat("zoom_image(image,zoom,x_off,y_off,size) (", option_names[o], ") vs 3D overload with zoom_z=1"),
+                               "zoom: max rel diff transaxial overloads vs 3D overload", SD));
             Img dip(in);
             zoom_image_in_place(dip, zxy, offs.x(), offs.y(), nxy, opt);
             VF_TRY(same_grid(grid_of(dip), vwant.g, cat("zoom_image_in_place(image,zoom,x_off,y_off,size) (", option_names[o], ") grid")));
-            VF_TRY(same_values(vol_of(dip), vwant, TOL_OVERLOAD, cat("zoom_image_in_place(image,zoom,x_off,y_off,size) (", option_names[o], ") vs 3D overload"),
-                               "zoom: max rel diff between overloads", SD));
+            VF_TRY(same_values(vol_of(dip), vwant, tol_d, cat("zoom_image_in_place(image,zoom,x_off,y_off,size) (", option_names[o], ") vs 3D overload"),
+                               "zoom: max rel diff transaxial overloads vs 3D overload", SD));
             // E1: xy with the transaxial overload, then z with the 3D in-place overload, vs one 3D call
             Img two(dip);
             zoom_image_in_place(two, CartesianCoordinate3D<float>(zooms.z(), 1.F, 1.F), CartesianCoordinate3D<float>(offs.z(), 0.F, 0.F),
                                 CartesianCoordinate3D<int>(sizes.z(), nxy, nxy), opt);
             VF_TRY(same_grid(grid_of(two), gout, cat("two steps (transaxial overload then z) (", option_names[o], ") grid vs one call")));
-            // the grids of the two routes agree only up to float rounding of the origins (recorded above):
-            // compare each with the resampling on its own grid through the one-call result, rel 1e-4 at most
-            VF_TRY(same_values(vol_of(two), vA[o], 10 * TOL_OVERLOAD, cat("two steps (transaxial overload then z) (", option_names[o], ") vs one call"),
+            // the grids of the two routes agree only up to float rounding of the recomputed origins and voxel sizes, and the
+            // second step resamples x,y once more at zoom 1 +- rounding: allowed TOL_OVERLOAD + 4*(shift in voxels)
+            const double shift_e = grid_shift(grid_of(two), gout) + grid_shift(grid_of(dip), grid_of(two), false, true, true);
+            const double tol_e = TOL_OVERLOAD + 4 * shift_e;
+            stats().maxi("zoom: max allowed rel diff two-step (parameter overloads) vs one call", tol_e);
+            {
+              const Vol vtwo = vol_of(two);
+              double worst = 0;
+              for (std::size_t i = 0; i < vtwo.d.size(); ++i)
+                worst = std::max(worst, std::fabs(vtwo.d[i] - vA[o].d[i]));
+              stats().maxi("zoom: max (observed / allowed) two-step (parameter overloads) vs one call", worst / std::max(vA[o].maxabs(), S[o]) / tol_e);
+            }
+            VF_TRY(same_values(vol_of(two), vA[o], tol_e, cat("two steps (transaxial overload then z) (", option_names[o], ") vs one call"),
                                "zoom: max rel diff two-step (parameter overloads) vs one call", S[o]));
           }
     }
@@ -967,12 +1005,22 @@ gen_ssrb(Src& s, int size)
   so.allow_predefined = false;
   so.allow_tof = true;
   c["scanner"] = vg::gen_scanner(s, so);
-  if (s.chance(1, 2))
+  if (s.chance(2, 3))
     { // more axial buckets (rings = crystals per block x blocks per bucket x buckets): combining segments needs rings
       const int per_bucket = c["scanner"]["ax_cryst_per_block"].get<int>() * c["scanner"]["ax_blocks_per_bucket"].get<int>();
       const int top = size < 30 ? 5 : (size < 70 ? 9 : 12);
       if (top / per_bucket >= 1)
         c["scanner"]["rings"] = per_bucket * int(s.range(std::max(1, top / per_bucket / 2), top / per_bucket));
+    }
+  if (c["scanner"]["tof_poss"].get<int>() == 0 && s.chance(1, 3))
+    { // more TOF scanners; sizes derived from the FOV exactly as vg::gen_scanner does (Scanner::check_consistency:
+      // coincidence window within [1/2,2] x FOV diameter, within [10,10000] ps, not smaller than the timing resolution)
+      const double fov_d = 2. * vg::make_scanner(c["scanner"])->get_max_FOV_radius();
+      const int poss = int(s.pick(std::vector<int>{ 3, 5, 7, 9, 11, 13, 15, 9, 15 }));
+      const double w_ps = std::min(9000., std::max(20., fov_d * s.pick(std::vector<double>{ 0.6, 0.75, 1., 1.25, 1.5, 1.9 }) / 0.149896229));
+      c["scanner"]["tof_poss"] = poss;
+      c["scanner"]["tof_size"] = w_ps / poss;
+      c["scanner"]["tof_res"] = w_ps * s.pick(std::vector<double>{ 0.05, 0.1, 0.25, 0.5, 0.9 });
     }
   shared_ptr<Scanner> sc = vg::make_scanner(c["scanner"]);
   const int rings = sc->get_num_rings(), ndet = sc->get_num_detectors_per_ring();
@@ -1019,7 +1067,7 @@ gen_ssrb(Src& s, int size)
   std::vector<int> nsegs; // odd (error() otherwise), and at least one complete output segment: nseg/2 <= last processed segment
   for (int k = 1; k / 2 <= eff; k += 2)
     nsegs.push_back(k);
-  c["nseg"] = s.chance(1, 5) ? 1 : s.pick(nsegs);
+  c["nseg"] = (nsegs.size() > 1 && s.chance(3, 4)) ? nsegs[std::size_t(s.range(1, long(nsegs.size()) - 1))] : 1;
   c["max_in_seg"] = max_in_seg;
   if (no_exclude && s.chance(1, 15))
     { // Finding 2: no complete output segment; SSRB.cxx:88 means to report it with error() (excluded by default)
@@ -1095,7 +1143,7 @@ gen_zoom(Src& s, int size)
         }
     }
   c["sup"] = { { "lo", { lo[0], lo[1], lo[2] } }, { "hi", { hi[0], hi[1], hi[2] } } };
-  c["fill_percent"] = int(s.pick(std::vector<int>{ 5, 30, 60, 100, 100 }));
+  c["fill_percent"] = int(s.pick(std::vector<int>{ 15, 30, 60, 100, 100 }));
   c["amp"] = s.pick(std::vector<double>{ 1., 1., 1000., 1e-3 });
   c["data_seed"] = s.seed64();
   c["blk"] = nullptr;
